@@ -14,7 +14,7 @@ from inscripta.biocantor.gene.transcript import TranscriptInterval
 from inscripta.biocantor.io.gff3.exc import GFF3ExportException
 from inscripta.biocantor.io.gff3.rows import GFFAttributes, GFFRow
 
-from harness.common import AND, MINUS, NOT, OR, PLUS, GENOME40, chrom_parent, chunk_parent, sname
+from harness.common import AND, MINUS, NOT, OR, PLUS, GENOME40, Strand, chrom_parent, chunk_parent, sname
 from vlib.obl import Obl
 from vlib.sym import concretize, untraced
 from vlib.tok import untok
@@ -390,6 +390,184 @@ def shared_cds_ids_fn():
     return fn
 
 
+
+# ------------------------------------------------------------------ export -> parse (io.gff3.parser; realised, body runs natively)
+REPARSE_LAYOUTS = {  # exon layouts relative to the transcript start (lengths, gaps); L3 has a 0-bp gap between exons 1 and 2
+    "e1": [(0, 5)],
+    "e2": [(0, 4), (7, 11)],
+    "e3adj": [(0, 3), (3, 6), (9, 12)],
+}
+_BT = [(None, None), ("protein_coding", "protein_coding"), ("protein_coding", None), ("ncRNA", "ncRNA"), ("protein_coding", "ncRNA"), (None, "protein_coding")]
+
+
+def _tmp_path(tag):
+    import os
+    import tempfile
+
+    d = "/dev/shm" if os.path.isdir("/dev/shm") and os.access("/dev/shm", os.W_OK) else tempfile.gettempdir()
+    return os.path.join(d, "verif_c11_%s_%d.gff3" % (tag, os.getpid()))
+
+
+def _export_parse(coll, fasta, tag="a"):
+    """collection_to_gff3 -> file -> parse_standard_gff3 / parse_gff3_embedded_fasta; returns (text, [AnnotationCollection])"""
+    import logging
+    import os
+
+    from inscripta.biocantor.io.gff3.parser import parse_gff3_embedded_fasta, parse_standard_gff3
+    from inscripta.biocantor.io.gff3.writer import collection_to_gff3
+
+    path = _tmp_path(tag)
+    logging.disable(logging.CRITICAL)
+    try:
+        with warnings.catch_warnings():
+            warnings.simplefilter("ignore")
+            with open(path, "w") as fh:
+                collection_to_gff3([coll], fh, add_sequences=fasta)
+            text = open(path).read()
+            recs = list(parse_gff3_embedded_fasta(path) if fasta else parse_standard_gff3(path))
+            return text, [r.to_annotation_collection() for r in recs]
+    finally:
+        logging.disable(logging.NOTSET)
+        if os.path.exists(path):
+            os.remove(path)
+
+
+def _reparse_model(strand, layout, s0, a, b, f0, ids, bt, iso, fasta, fm=0):
+    """builds the source collection; returns (collection, gene, [transcripts])"""
+    from inscripta.biocantor.gene.cds import CDSInterval
+    from inscripta.biocantor.location.location_impl import CompoundInterval, SingleInterval
+
+    par = chrom_parent(GENOME40) if fasta else None
+    exons = [(s0 + x, s0 + y) for x, y in REPARSE_LAYOUTS[layout]]
+    gt, tt = _BT[bt]
+    gt = Biotype[gt] if gt else None
+    tt = Biotype[tt] if tt else None
+    tkw = dict(transcript_id="tx1" if ids else None, transcript_symbol="ts1" if ids == 1 else None)
+    gkw = dict(gene_id="gid" if ids else None, gene_symbol="gs" if ids == 1 else None, locus_tag="lt" if ids == 2 else None)
+    cds = None
+    if a >= 0:
+        # CDS = transcript-relative window [a, b) (5'->3' on the transcript's strand) mapped to one genomic block per exon touched
+        cds, off = [], 0
+        for s, e in (exons if strand is PLUS else exons[::-1]):
+            lo, hi = max(a, off), min(b, off + (e - s))
+            if lo < hi:
+                cds.append((s + lo - off, s + hi - off) if strand is PLUS else (e - (hi - off), e - (lo - off)))
+            off += e - s
+        cds.sort()
+        cl = CompoundInterval([c[0] for c in cds], [c[1] for c in cds], strand) if len(cds) > 1 else SingleInterval(cds[0][0], cds[0][1], strand)
+        frames = CDSInterval.construct_frames_from_location(cl, CDSFrame(f0))
+        if fm == 1:  # every block annotated with the same frame (a frameshifted / re-synchronising model unless lengths are multiples of 3)
+            frames = [CDSFrame(f0)] * len(cds)
+        elif fm == 2:  # consistent chain, then shifted by one from the second block (in 5'->3' order) on
+            order = list(range(len(cds))) if strand is PLUS else list(range(len(cds)))[::-1]
+            frames = list(frames)
+            for k in order[1:]:
+                frames[k] = frames[k].shift(1)
+        tkw.update(protein_id="pid" if ids == 1 else None, product="prod" if ids == 1 else None)
+    t1 = TranscriptInterval([e[0] for e in exons], [e[1] for e in exons], strand, [c[0] for c in cds] if cds else None, [c[1] for c in cds] if cds else None,
+                            frames if cds else None, sequence_name="chr1", transcript_type=tt, qualifiers={"note": ["n1", "a;b=c d"]},
+                            parent_or_seq_chunk_parent=par, **tkw)
+    txs = [t1]
+    if iso == 1:  # non-coding isoform on the first exon
+        txs.append(TranscriptInterval([exons[0][0]], [exons[0][1]], strand, sequence_name="chr1", transcript_type=tt, transcript_id="tx2" if ids else None,
+                                      qualifiers={"tq2": ["w"]}, parent_or_seq_chunk_parent=par))
+    elif iso == 2:  # coding isoform spanning the exons' hull, CDS = whole transcript, frame 0
+        txs.append(TranscriptInterval([exons[0][0]], [exons[-1][1]], strand, [exons[0][0]], [exons[-1][1]], [CDSFrame.ZERO], sequence_name="chr1",
+                                      transcript_type=tt, transcript_id="tx2" if ids else None, parent_or_seq_chunk_parent=par))
+    gene = GeneInterval(txs, sequence_name="chr1", gene_type=gt, qualifiers={"gq": ["v%1"]}, parent_or_seq_chunk_parent=par, **gkw)
+    coll = AnnotationCollection(genes=[gene], sequence_name="chr1", parent_or_seq_chunk_parent=par)
+    return coll, gene, txs
+
+
+def _tx_key(d):
+    return (tuple(d["exon_starts"]), tuple(d["exon_ends"]), tuple(d["cds_starts"] or ()), tuple(d["cds_ends"] or ()))
+
+
+def _models_survive(coll, parsed, fasta, check_tt=True):
+    """the property's gene-model clause: same exons, CDS blocks, frames, strand and identifiers for every gene"""
+    if len(parsed) != 1:
+        return False
+    src, dst = coll.to_dict(), parsed[0].to_dict()
+    if len(dst["genes"]) != len(src["genes"]) or dst["sequence_name"] != src["sequence_name"]:
+        return False
+    for g0, g1 in zip(src["genes"], dst["genes"]):
+        for k in ("gene_symbol", "locus_tag", "gene_type"):
+            if g0[k] != g1[k]:
+                return False
+        if g0["gene_id"] is not None and g0["gene_id"] != g1["gene_id"]:
+            return False
+        for k, v in (g0["qualifiers"] or {}).items():
+            if sorted((g1["qualifiers"] or {}).get(k, [])) != sorted(v):
+                return False
+        t0s = sorted(g0["transcripts"], key=_tx_key)
+        t1s = sorted(g1["transcripts"], key=_tx_key)
+        if len(t0s) != len(t1s):
+            return False
+        for t0, t1 in zip(t0s, t1s):
+            for k in ("exon_starts", "exon_ends", "strand", "cds_starts", "cds_ends", "cds_frames", "transcript_id", "protein_id", "product"):
+                if t0[k] != t1[k]:
+                    return False
+            if t0["transcript_symbol"] is not None and t0["transcript_symbol"] != t1["transcript_symbol"]:
+                return False
+            if check_tt and t0["transcript_type"] is not None and t0["transcript_type"] != t1["transcript_type"]:
+                return False
+            for k, v in (t0["qualifiers"] or {}).items():
+                if sorted((t1["qualifiers"] or {}).get(k, [])) != sorted(v):
+                    return False
+    if fasta:
+        # sequence attached: every transcript extracts the same spliced / coding sequence as its source
+        p = parsed[0]
+        if p.chromosome_location.parent is None or str(p.chromosome_location.parent.sequence) != GENOME40:
+            return False
+        def seqs(t):
+            try:
+                prot = str(t.get_protein_sequence()) if t.is_coding else ""
+            except ValueError as e:  # a CDS without a complete codon is refused (C05/C19): the same refusal on both sides
+                prot = "ValueError: %s" % e
+            return str(t.get_spliced_sequence()), prot
+
+        for g0, g1 in zip(coll.genes, p.genes):
+            if sorted(seqs(t) for t in g0.transcripts) != sorted(seqs(t) for t in g1.transcripts):
+                return False
+    return True
+
+
+def _cols8(text):
+    return sorted(tuple(ln.split("\t")[:8]) for ln in text.splitlines() if "\t" in ln and not ln.startswith("#"))
+
+
+def reparse_fn(strand, layout, iso, fasta, literal=False, generations=3):
+    L = sum(y - x for x, y in REPARSE_LAYOUTS[layout])
+
+    def fn(s0, a, b, f0, fm, ids, bt):
+        s0, a, b, f0, fm, ids, bt = concretize(s0, a, b, f0, fm, ids, bt)
+        with untraced():
+            coll, gene, txs = _reparse_model(strand, layout, s0, a, b, f0, ids, bt, iso, fasta, fm)
+            text0, parsed = _export_parse(coll, fasta, "a")
+            if not _models_survive(coll, parsed, fasta):
+                return False
+            # re-export of the parsed result: same rows in columns 1-8 (IDs are content digests and the parser folds the gene's
+            # qualifiers into its transcripts, so column 9 settles only from the second generation on: F17), and a fixed point
+            # from the second generation on
+            text1, parsed1 = _export_parse(parsed[0], fasta, "b")
+            if literal:
+                return sorted(text1.splitlines()) == sorted(text0.splitlines())
+            if _cols8(text1) != _cols8(text0):
+                return False
+            if not _models_survive(parsed[0], parsed1, fasta, check_tt=False):
+                return False
+            if generations < 3 or _BT[bt][0] is None:
+                return True  # a gene without biotype is written as 'unspecified', which the parser keeps as a qualifier: settles one generation later
+            text2, parsed2 = _export_parse(parsed1[0], fasta, "c")
+            return sorted(text2.splitlines()) == sorted(text1.splitlines())  # (rows sharing a start may swap between generations)
+
+    def pre(s0, a, b, f0, fm, ids, bt):
+        return 0 <= s0 and s0 <= 1 and ((a == -1 and b == -1 and f0 == 0 and fm == 0) or (0 <= a and a < b and b <= L)) and 0 <= f0 and f0 <= 2 \
+            and 0 <= fm and fm <= 2 and 0 <= ids and ids <= 2 and 0 <= bt and bt < len(_BT)
+
+    return fn, pre
+
+
 def obligations(tier):
     out = []
     quick = tier == "quick"
@@ -454,4 +632,35 @@ def obligations(tier):
                        desc="collection_to_gff3 on two collections (real digests): version header, collections ordered by sequence name, rows ordered by "
                             "start per sequence, unique IDs, Parents defined earlier, phases on CDS only%s" % (", ##sequence-region and ##FASTA sections" if add else ""),
                        bounds="2 collections x 1 gene x 2 coding transcripts, realised small coordinates", examples=[dict(s0=1, l0=3, g=2, l1=4)]))
+    # ---- export -> parse legs (io.gff3.parser on the exported text)
+    P7 = dict(s0=int, a=int, b=int, f0=int, fm=int, ids=int, bt=int)
+    combos = [(PLUS, "e2", 1, False), (MINUS, "e3adj", 0, False), (MINUS, "e2", 2, True)] if quick else \
+        [(st, lay, iso, fa) for st in (PLUS, MINUS) for lay in REPARSE_LAYOUTS for iso in (0, 1, 2) for fa in (False, True) if not (fa and iso == 1)]
+    for st, lay, iso, fa in combos:
+        L = sum(y - x for x, y in REPARSE_LAYOUTS[lay])
+        fn, pre = reparse_fn(st, lay, iso, fa, generations=2 if quick else 3)
+        tag = "%s_%s_iso%d_%s" % (sname(st), lay, iso, "fasta" if fa else "plain")
+        pre_struct = (lambda pre: (lambda s0, a, b, f0, fm, ids, bt: pre(s0, a, b, f0, fm, ids, bt) and ids == 1 and bt == 1 and (s0 == 1 or not quick)))(pre)
+        pre_attrs = (lambda pre, L: (lambda s0, a, b, f0, fm, ids, bt: pre(s0, a, b, f0, fm, ids, bt) and s0 == 1 and fm == 0 and
+                                     ((a == -1) or (a == 1 and b == L - 1 and f0 == 1))))(pre, L)
+        out.append(Obl("reparse_struct_" + tag, fn, P7, pre_struct, budget=900, cost=60 if quick else 120, consts=dict(BT=_BT),
+                       desc="collection_to_gff3 -> parse_standard_gff3/parse_gff3_embedded_fasta, gene STRUCTURE: every gene comes back with the same exons, CDS "
+                            "blocks, frames (consistent, constant and shifted frame vectors) and strand, plus its identifiers%s; re-export of the parsed result has "
+                            "the same rows in columns 1-8%s" % (", sequence attached and extracting the same spliced/protein sequences" if fa else "",
+                                                               "" if quick else " and is a fixed point from the second generation on"),
+                       bounds="exon layout %s at start %s, every CDS window [a,b) of the transcript (or none), start frame 0..2 x 3 frame-vector modes, second "
+                              "isoform kind %d (realised; the parser runs natively on the exported file)" % (lay, "1" if quick else "0..1", iso),
+                       examples=[dict(s0=1, a=1, b=L - 1, f0=2, fm=1, ids=1, bt=1), dict(s0=1, a=-1, b=-1, f0=0, fm=0, ids=1, bt=1)]))
+        if quick and fa:
+            continue
+        out.append(Obl("reparse_attrs_" + tag, fn, P7, pre_attrs, budget=300, cost=10, consts=dict(BT=_BT),
+                       desc="as reparse_struct, gene ATTRIBUTES: gene/transcript ids, symbols, locus tag, biotypes, protein id, product and qualifiers survive",
+                       bounds="3 identifier patterns x %d gene/transcript biotype patterns x {non-coding, one CDS window} (realised)" % len(_BT),
+                       examples=[dict(s0=1, a=1, b=L - 1, f0=1, fm=0, ids=2, bt=2), dict(s0=1, a=-1, b=-1, f0=0, fm=0, ids=1, bt=1)]))
+    fn, pre = reparse_fn(PLUS, "e2", 0, False, literal=True)
+    out.append(Obl("reexport_reproduces_file_literal", fn, P7,
+                   (lambda pre: (lambda s0, a, b, f0, fm, ids, bt: pre(s0, a, b, f0, fm, ids, bt) and s0 == 1 and f0 == 0 and fm == 0 and bt == 1 and
+                                 (a == -1 or (a == 1 and b == 7))))(pre),
+                   budget=120, cost=5, desc="export of the parsed result reproduces the exported file (literal clause, up to the order of rows sharing a start)",
+                   bounds="2-exon gene, 3 identifier patterns, coding/non-coding (realised)", examples=[dict(s0=1, a=1, b=7, f0=0, fm=0, ids=1, bt=1)]))
     return out
